@@ -140,6 +140,11 @@ func snapshotDir(root string, skip map[string]bool) map[string]string {
 			out[rel] = fmt.Sprintf("dir %o", info.Mode().Perm())
 			return nil
 		}
+		if !info.Mode().IsRegular() {
+			t, _ := os.Readlink(p)
+			out[rel] = fmt.Sprintf("special %v %s", info.Mode().Type(), t) // never read through links or devices
+			return nil
+		}
 		b, _ := os.ReadFile(p)
 		out[rel] = fmt.Sprintf("file %o %d %x", info.Mode().Perm(), len(b), sha256.Sum256(b))
 		return nil
